@@ -12,10 +12,20 @@ SEMS = [("add", "mul"), ("logaddexp", "add"), ("max", "add"), ("min", "add"), ("
 
 def gen_case(seed):
     src = SeedSource(seed)
-    family = src.pick(["general", "general", "reals", "semiring", "semiring", "gauss_chain", "gauss_int", "binders", "shaped", "shaped"])
+    family = src.pick(["general", "general", "reals", "semiring", "semiring", "gauss_chain", "gauss_int", "binders", "shaped", "shaped", "constant", "delta", "delta_ast", "delta_ast"])
+    if family == "delta":
+        return gen_delta_case(src)
     if family == "shaped":
         # array-valued outputs: reshape / getslice / getitem / einsum / matmul / stack and cat of outputs / Lambda
         ast = gen_expr(src, Opts(max_depth=3, shaped=True, reals=src.pick([False, True, True])), src.pick([("real", ()), ("real", (2,)), ("real", (3,)), ("real", (2, 2)), ("real", (1, 3))]))
+    elif family == "delta_ast":
+        # point masses in the term language: Delta + f in both orders, stacked Deltas, reductions and integrals against unit-mass
+        # Deltas, substitution of a Delta's own name (hit / miss / rename), Independent over a batched point
+        ast = gen_expr(src, Opts(max_depth=2, deltas=True, reals=True, max_names=3), ("real", ()))
+        return {"family": family, "ast": ast, "mode": src.pick(["eager", "eager", "lazy", "normalize", "sequential"])}
+    elif family == "constant":
+        # Constant(extra inputs, x) under unary / binary ops, reductions over its own and its declared inputs, substitution
+        ast = gen_expr(src, Opts(max_depth=3, consts=True, reals=src.pick([False, True]), ops_reduce=("add", "add", "mul", "logaddexp", "max")), ("real", ()))
     elif family == "general":
         ast = gen_expr(src, Opts(max_depth=3), None)
     elif family == "reals":
@@ -38,6 +48,197 @@ def gen_case(seed):
         c = g13(src)
         return {"family": family, "ast": c["ast"], "mode": src.pick(["eager", "eager", "moment_matching", "lazy"])}
     return {"family": family, "ast": ast, "mode": src.pick(MODES)}
+
+
+DELTA_PROGS = ["d+f", "f+d", "d-f", "dd", "dd+f", "d+(d+f)", "reduce", "reduce_rev", "reduce2", "integrate", "independent", "subs", "subs_var"]
+
+
+def gen_delta_case(src):
+    """A program over one or two Delta terms (built directly; Delta has no node in the AST language)."""
+    from vf.gen import G, WVALS
+
+    g = G(src, Opts(max_names=3))
+    names = sorted(g.sizes)
+
+    def delta(name):
+        real = g.chance(0.5)
+        batch = g.subset(names, 0, 2)
+        bins = [(n, g.sizes[n]) for n in batch]
+        nb = g.numel([s_ for n, s_ in bins])
+        if real:
+            shape = g.pick([(), (), (2,)])
+            size = None
+            point = g.expand(WVALS, nb * (2 if shape else 1))
+        else:
+            shape = ()
+            size = g.rint((2, 4))
+            point = g.int_data(size, nb)
+        ldb = g.subset(batch, 0, len(batch))
+        ld = g.expand([0.0, 0.0, 0.5, -1.0, 0.25], g.numel([g.sizes[n] for n in ldb]))
+        return dict(name=name, real=real, shape=list(shape), size=size, batch=bins, point=list(point), ld_batch=[(n, g.sizes[n]) for n in ldb], ld=list(ld))
+
+    d1, d2 = delta("v"), delta("w")
+    fins = [(n, g.sizes[n]) for n in g.subset(names, 0, 2)]
+    ftab = g.expand([0.25, 0.5, 1.0, 1.5, 2.0, -0.5], g.numel([s_ for n, s_ in fins]) * (d1["size"] or 1) * (d2["size"] or 1))
+    return {"family": "delta", "mode": "eager", "ast": ("num", 0.0, "real"), "prog": g.pick(DELTA_PROGS), "d1": d1, "d2": d2, "fins": fins, "ftab": list(ftab),
+            "f_uses_w": g.chance(0.5), "subs_off": g.chance(0.5)}
+
+
+def delta_program(case):
+    """Runs the Delta program of `case` under the current interpretation; returns the final funsor."""
+    from collections import OrderedDict
+
+    from funsor import Bint, Reals, Tensor, Variable, ops
+    from funsor.delta import Delta
+    from funsor.integrate import Integrate
+    from funsor.terms import Independent
+
+    def mk(d):
+        bins = [tuple(b) for b in d["batch"]]
+        shape = tuple(d["shape"])
+        P = np.asarray(d["point"], dtype=float if d["real"] else np.int64).reshape(tuple(s_ for n, s_ in bins) + shape)
+        ldb = [tuple(b) for b in d["ld_batch"]]
+        LD = np.asarray(d["ld"], dtype=float).reshape(tuple(s_ for n, s_ in ldb))
+        point = Tensor(P, OrderedDict((n, Bint[s_]) for n, s_ in bins), "real" if d["real"] else d["size"])
+        ld = Tensor(LD, OrderedDict((n, Bint[s_]) for n, s_ in ldb))
+        return Delta(d["name"], point, ld), (Reals[shape] if d["real"] else Bint[d["size"]])
+
+    (d1, dom1), (d2, dom2) = mk(case["d1"]), mk(case["d2"])
+    fins = [tuple(x) for x in case["fins"]]
+    prog = case["prog"]
+    two = prog in ("dd+f", "d+(d+f)", "reduce2") and case["f_uses_w"]
+
+    def fpart(name, dom, spec, tab_axis):
+        v = Variable(name, dom)
+        if spec["real"]:
+            vs = v if not spec["shape"] else v.sum()
+            return None, vs
+        return (name, Bint[spec["size"]]), None
+
+    # f: a table over the integer Delta variables and fins, plus an affine/quadratic part in the real Delta variables
+    tab_inputs = OrderedDict()
+    real_terms = []
+    for name, dom, spec in [("v", dom1, case["d1"])] + ([("w", dom2, case["d2"])] if two else []):
+        ti, rt = fpart(name, dom, spec, None)
+        if ti is not None:
+            tab_inputs[ti[0]] = ti[1]
+        else:
+            real_terms.append(rt)
+    for n, s_ in fins:
+        tab_inputs[n] = Bint[s_]
+    cnt = int(np.prod([d.size for d in tab_inputs.values()])) if tab_inputs else 1
+    data = np.asarray((case["ftab"] * (cnt // max(1, len(case["ftab"])) + 1))[:cnt], dtype=float).reshape(tuple(d.size for d in tab_inputs.values()))
+    f = Tensor(data, tab_inputs)
+    for i, rt in enumerate(real_terms):
+        f = f * rt + rt * rt * (0.5 + i)
+    V = frozenset([Variable("v", dom1)])
+    VW = frozenset([Variable("v", dom1), Variable("w", dom2)])
+    if prog == "d+f":
+        return d1 + f
+    if prog == "f+d":
+        return f + d1
+    if prog == "d-f":
+        return d1 - f
+    if prog == "dd":
+        return d1 + d2
+    if prog == "dd+f":
+        return (d1 + d2) + f
+    if prog == "d+(d+f)":
+        return d1 + (d2 + f)
+    if prog == "reduce":
+        return (d1 + f).reduce(ops.logaddexp, "v")
+    if prog == "reduce_rev":
+        return (f + d1).reduce(ops.logaddexp, "v")
+    if prog == "reduce2":
+        return ((d1 + d2) + f).reduce(ops.logaddexp, frozenset(["v", "w"]))
+    if prog == "integrate":
+        return Integrate(d1, f, V)
+    if prog == "independent":
+        if not case["d1"]["real"] or not case["d1"]["batch"]:
+            return d1 + f
+        return Independent(d1, "vv", case["d1"]["batch"][0][0], "v")
+    if prog == "subs_var":
+        return (d1 + f)(v="w_renamed")
+    # subs: a value equal to / different from the point, or a batched value
+    bins = [tuple(b) for b in case["d1"]["batch"]]
+    P = np.asarray(case["d1"]["point"], dtype=float if case["d1"]["real"] else np.int64).reshape(tuple(s_ for n, s_ in bins) + tuple(case["d1"]["shape"]))
+    val = P if not case["subs_off"] else (P + 1 if case["d1"]["real"] else (P + 1) % case["d1"]["size"])
+    value = Tensor(val, OrderedDict((n, Bint[s_]) for n, s_ in bins), "real" if case["d1"]["real"] else case["d1"]["size"])
+    return (d1 + f)(v=value)
+
+
+def _subterms(t, seen=None):
+    from funsor.terms import Funsor
+
+    seen = set() if seen is None else seen
+    if id(t) in seen:
+        return
+    seen.add(id(t))
+    if isinstance(t, Funsor):
+        yield t
+        for a in getattr(t, "_ast_values", ()):
+            yield from _subterms(a, seen)
+    elif isinstance(t, (tuple, frozenset)):
+        for a in t:
+            yield from _subterms(a, seen)
+
+
+def ground_compare(lhs, result):
+    """Fallback for firings whose sides have no AST: both sides are evaluated by funsor itself on complete
+    assignments of their inputs (every integer assignment up to a cap; real inputs at the points of the Delta terms
+    that mention them, and off those points).  The relation checked is 'rewriting, then evaluating at a point'
+    == 'evaluating the un-rewritten lazy term at the point'.  Returns number of points or (kind, msg)."""
+    import itertools
+
+    from funsor.delta import Delta
+    from funsor.tensor import Tensor
+    from funsor.terms import Number
+
+    extra = set(result.inputs) - set(lhs.inputs)
+    if extra:
+        return ("introduces-inputs", f"replacement depends on {sorted(extra)} which the original does not have")
+    if result.output.shape != lhs.output.shape:
+        return ("changes-shape", f"replacement has output {result.output}, original {lhs.output}")
+    ints = [(k, d) for k, d in lhs.inputs.items() if d.dtype != "real"]
+    if any(d.shape for k, d in ints):
+        raise Undecided("array-valued integer input")
+    reals = [(k, d) for k, d in lhs.inputs.items() if d.dtype == "real"]
+    points = {}
+    for t in list(_subterms(lhs)) + list(_subterms(result)):
+        if isinstance(t, Delta):
+            for name, (point, ld) in t.terms:
+                points.setdefault(name, point)
+    space = list(itertools.product(*[range(d.size) for k, d in ints]))
+    if len(space) > 64:
+        space = space[:: max(1, len(space) // 64)]
+    n = 0
+    for idx in space:
+        ienv = {k: Number(i, d.size) for (k, d), i in zip(ints, idx)}
+        for variant in range(2 if reals else 1):
+            env = dict(ienv)
+            for j, (k, d) in enumerate(reals):
+                val = None
+                if k in points and set(points[k].inputs) <= set(ienv) and points[k].output == d:
+                    p = points[k](**{a: ienv[a] for a in points[k].inputs})
+                    if isinstance(p, (Tensor, Number)):
+                        val = np.asarray(p.data, dtype=float)
+                if val is None:
+                    val = np.full(d.shape, 0.25 * (1 + (len(k) + j) % 5))
+                if variant == 1 and j == 0:
+                    val = val + 0.375
+                env[k] = Tensor(np.asarray(val, dtype=float))
+            try:
+                a = lhs(**{k: v for k, v in env.items() if k in lhs.inputs})
+                b = result(**{k: v for k, v in env.items() if k in result.inputs})
+            except Exception as e:  # noqa: BLE001
+                raise Undecided("ground evaluation raised " + type(e).__name__)
+            if not isinstance(a, (Tensor, Number)) or not isinstance(b, (Tensor, Number)) or a.inputs or b.inputs:
+                raise Undecided("ground evaluation stays lazy")
+            if not close(np.asarray(a.data), np.asarray(b.data)):
+                shown = {k: np.asarray(v.data).tolist() for k, v in env.items()}
+                return ("changes-value(ground)", f"at {shown}: original evaluates to {np.asarray(a.data).tolist()}, replacement to {np.asarray(b.data).tolist()}")
+            n += 1
+    return n
 
 
 def run_program(node, mode):
@@ -77,8 +278,10 @@ def compare_firing(lhs_ast, rhs_ast, nonneg):
         raise Undecided("too many points")
     o1, o2 = Oracle(), Oracle()
     n = 0
-    for rp in real_points(inputs, 2, nonneg=nonneg):
-        for ip in int_points(inputs):
+    from vf.lang import delta_hit_points
+
+    for ip in int_points(inputs):
+        for rp in real_points(inputs, 2, nonneg=nonneg) + delta_hit_points(lhs_ast, inputs, ip):
             pt = dict(ip)
             pt.update(rp)
             try:
@@ -116,6 +319,9 @@ class C02(Prop):
         return st.integers(0, 2**40).map(robust_gen(gen_case))
 
     def describe(self, case):
+        if case["family"] == "delta":
+            ds = [f"Delta({d['name']}:{'real' + str(d['shape']) if d['real'] else 'bint' + str(d['size'])}, batch={[tuple(b) for b in d['batch']]}, point={d['point'][:6]}, ld={d['ld'][:4]})" for d in (case["d1"], case["d2"])]
+            return f"[delta/{case['prog']}] d1={ds[0]} d2={ds[1]} f over {[tuple(x) for x in case['fins']]} f_uses_w={case['f_uses_w']} subs_off={case['subs_off']}"
         return f"[{case['family']}/{case['mode']}] {show(case['ast'])}"
 
     def finalize(self, coverage):
@@ -131,9 +337,17 @@ class C02(Prop):
         coverage.get("notes", {}).pop("rules_fired", None)
 
     def signature(self, case):
-        return case["mode"]
+        return case["mode"] + (":" + case["prog"] if case["family"] == "delta" else "")
 
     def shrink_candidates(self, case):
+        if case["family"] == "delta":
+            for key in ("d1", "d2"):
+                d = case[key]
+                if d["batch"]:
+                    yield dict(case, **{key: dict(d, batch=[], ld_batch=[], point=d["point"][: (2 if d["shape"] else 1)], ld=d["ld"][:1])})
+            if case["fins"]:
+                yield dict(case, fins=[])
+            return
         for c in ast_shrinks(case["ast"]):
             yield dict(case, ast=c)
 
@@ -149,6 +363,9 @@ class C02(Prop):
         stt.count("family:" + case["family"])
         # cross-check of the term -> AST conversion on this program
         try:
+            if case["family"] == "delta":
+                stt.count("prog:" + case["prog"])
+                raise Unsupported("Delta program")
             if any(n[0] == "approx" for n in __import__("vf.lang", fromlist=["walk"]).walk(node)):
                 raise Unsupported("lazy Approximate leaks mangled names (open finding of C05)")
             with I.reflect:
@@ -176,7 +393,10 @@ class C02(Prop):
         rec = Recorder()
         try:
             with rec.recording():
-                run_program(node, mode)
+                if case["family"] == "delta":
+                    delta_program(case)
+                else:
+                    run_program(node, mode)
         except Exception as e:
             stt.decline("program-raised:" + innermost_funsor_frame(e))
         nonneg = case.get("sem", ("", ""))[0] in ("max", "min") or case["family"] != "semiring"
@@ -223,11 +443,21 @@ class C02(Prop):
             if key in seen:
                 continue
             seen.add(key)
+            ra = None
             try:
-                if la is None:
-                    la = to_ast(lhs)
-                ra = to_ast(result)
-                res = compare_firing(la, ra, nonneg)
+                try:
+                    if la is None:
+                        la = to_ast(lhs)
+                    ra = to_ast(result)
+                    res = compare_firing(la, ra, nonneg)
+                except Unsupported:
+                    if lhs is None:
+                        raise
+                    # no reference meaning for one side (Delta, MarkovProduct, ...): funsor's own evaluation on complete
+                    # assignments decides whether the rewrite changed the value
+                    res = ground_compare(lhs, result)
+                    stt.count("firing-decided-by-ground-evaluation")
+                    la = la if la is not None else ("num", 0.0, "real")
             except (Unsupported, Undecided) as u:
                 stt.count("undecided:" + str(u)[:40])
                 continue
@@ -242,6 +472,8 @@ class C02(Prop):
                 continue
             if isinstance(res, tuple):
                 kind, msg = res
+                if ra is None:
+                    raise Violation(f"rewrite-{kind}|{name}", f"rule {name} rewrote {str(lhs)[:300]}  ->  {str(result)[:300]} : {msg}; program {self.describe(case)[:400]}")
                 raise Violation(f"rewrite-{kind}|{name}", f"rule {name} rewrote {show(la)[:300]}  ->  {show(ra)[:300]} : {msg}; program {self.describe(case)[:300]}")
             stt.count("firing-checked")
             if name not in fired:
